@@ -717,7 +717,18 @@ func workload5(res *core.Result, r *rand.Rand, keyPrefix string) {
 	both(5 + r.IntN(10))
 	// the request of a fresh exchange, kept so that it can be served twice
 	for step := 0; step < 6 && ok; step++ {
-		switch r.IntN(3) {
+		switch r.IntN(4) {
+		case 3:
+			// the end of a setup as every real flow has it: the exchange keys are cleaned up - some frames after the
+			// keys were installed (the link handshake cleans up only after the peer's acknowledgement)
+			if r.IntN(2) == 0 {
+				encA.InitCleanup()
+				history = append(history, "A cleans up its exchange keys")
+			} else {
+				encB.InitCleanup()
+				history = append(history, "B cleans up its exchange keys")
+			}
+			both(3 + r.IntN(6))
 		case 0:
 			kx, kxt, err := encA.InitKeyClientStart()
 			if err != nil {
